@@ -203,6 +203,15 @@ func includeSets() []modset {
 		{"include:self", map[string]string{"a": mod("s1"), "s1": sub("s1", "a", " container cs1;", "s1")}, "any"},
 		{"include:dangling", map[string]string{"a": mod("nosuch")}, "error"},
 		{"include:wrong-owner", map[string]string{"a": mod("s1"), "s1": sub("s1", "other", " container cs1;")}, "error"},
+		// imports that are written only in a submodule take part in the import graph of the module
+		{"include:submodule-only-import:cycle", map[string]string{"a": mod("s1"), "s1": sub("s1", "a", " import b { prefix b; } container cs1 { leaf x { type string; } }"),
+			"b": "module b { namespace \"urn:b\"; prefix b; import a { prefix a; } container cb { leaf y { type string; } } }"}, "error"},
+		{"include:submodule-only-import:grouping-cycle", map[string]string{"a": mod("s1"), "s1": sub("s1", "a", " import b { prefix b; } grouping ga { container ca2 { uses b:gb; } }"),
+			"b": "module b { namespace \"urn:b\"; prefix b; import a { prefix a; } grouping gb { container cb2 { uses a:ga; } } container top { uses gb; } }"}, "error"},
+		{"include:submodule-only-import:augment-into-uses", map[string]string{"a": mod("s1"), "s1": sub("s1", "a", " import b { prefix b; } augment /b:bt/b:gc { leaf y { type string; } }"),
+			"b": "module b { namespace \"urn:b\"; prefix b; grouping g { container gc { leaf x { type string; } } } container bt { uses g; } }"}, "ok"},
+		{"include:submodule-only-import:typedef-and-identity", map[string]string{"a": mod("s1"), "s1": sub("s1", "a", " import b { prefix b; } identity ia { base b:ib; } container cs1 { leaf x { type b:tb; } leaf r { type identityref { base b:ib; } } }"),
+			"b": "module b { namespace \"urn:b\"; prefix b; typedef tb { type int8; } identity ib; }"}, "ok"},
 		{"include:clash", map[string]string{"a": mod("s1", "s2"), "s1": sub("s1", "a", " container same { leaf x { type string; } }"), "s2": sub("s2", "a", " container same { leaf y { type string; } }")}, "error"},
 	}
 }
